@@ -92,112 +92,137 @@ Definition count_atom (k : string) (q : cq) (len : bool) (p : path) (c : ynode) 
   | None => []
   end.
 
-Fixpoint parse_expr (fuel : nat) (y : ynode) {struct fuel} : presult form :=
-  match fuel with
-  | O => PUnsupported
-  | S fuel =>
-    let parse_pc (entry : string * ynode) : presult (list form) :=
-      let (key, c) := entry in
-      pbind (parse_property_path key) (fun p =>
-      match c with
-      | YMap _ =>
-        if present "uniqueValues" c || present "moreThanProperty" c || present "moreThanOrEqualsToProperty" c
-           || present "exactly" c || present "rego" c || present "regoModule" c then PUnsupported else
-        let counts := (count_atom "minCount" CMin false p c ++ count_atom "maxCount" CMax false p c ++ count_atom "exactCount" CExact false p c
-                       ++ count_atom "minLength" CMin true p c ++ count_atom "maxLength" CMax true p c ++ count_atom "exactLength" CExact true p c)%list in
-        pbind (match yget "pattern" c with
-               | Some v => match y_string v with
-                           | Some s => match classify_pattern s with Some pt => POk [FAtom (APattern p pt)] | None => PUnsupported end
-                           | None => POk []
-                           end
-               | None => POk [] end) (fun pattern =>
-        let scalar_set (k : string) (mk : list string -> atom) : presult (list form) :=
-          match yget k c with
-          | Some (YSeq items) => pbind (map_p (fun i => opt_p (stringify i)) items) (fun l => POk [FAtom (mk l)])
-          | _ => POk []
-          end in
-        pbind (scalar_set "in" (AIn p)) (fun fin =>
-        pbind (scalar_set "containsAll" (AContainsAll p)) (fun fall =>
-        pbind (scalar_set "containsSome" (AContainsSome p)) (fun fsome =>
-        let cmp (k : string) (o : cop) : presult (list form) :=
-          match yget k c with
-          | Some v => match y_string v with
-                      | Some s => pbind (parse_property_path s) (fun q => POk [FAtom (ACmp o p q)])
-                      | None => POk []
-                      end
-          | None => POk []
-          end in
-        pbind (cmp "lessThanProperty" PLt) (fun c1 => pbind (cmp "lessThanOrEqualsToProperty" PLe) (fun c2 =>
-        pbind (cmp "equalsToProperty" PEq) (fun c3 => pbind (cmp "disjointWithProperty" PNe) (fun c4 =>
-        let qualified (k : string) (mk : nat -> quant) : presult (list form) :=
-          match yget k c with
-          | Some qn =>
-              match yget "count" qn with
-              | Some cn => match y_nat cn with
-                           | Some n => match yget "validation" qn with
-                                       | Some (YMap _ as v) => pbind (parse_expr fuel v) (fun f => POk [FNested (mk n) p f])
-                                       | _ => PError
-                                       end
-                           | None => PError
-                           end
+(* The body of parseExpressionValue / ParsePropertyConstraint, over the parser applied to sub-expressions ([rec]):
+   one definition per group of checks, in the order of the code. *)
+Section Body.
+Variable rec : ynode -> presult form.
+
+Definition pc_unsupported (c : ynode) : bool :=
+  present "uniqueValues" c || present "moreThanProperty" c || present "moreThanOrEqualsToProperty" c
+  || present "exactly" c || present "rego" c || present "regoModule" c.
+Definition pc_counts (p : path) (c : ynode) : list form :=
+  (count_atom "minCount" CMin false p c ++ count_atom "maxCount" CMax false p c ++ count_atom "exactCount" CExact false p c
+   ++ count_atom "minLength" CMin true p c ++ count_atom "maxLength" CMax true p c ++ count_atom "exactLength" CExact true p c)%list.
+Definition pc_pattern (p : path) (c : ynode) : presult (list form) :=
+  match yget "pattern" c with
+  | Some v => match y_string v with
+              | Some s => match classify_pattern s with Some pt => POk [FAtom (APattern p pt)] | None => PUnsupported end
+              | None => POk []
+              end
+  | None => POk []
+  end.
+Definition pc_scalar_set (c : ynode) (k : string) (mk : list string -> atom) : presult (list form) :=
+  match yget k c with
+  | Some (YSeq items) => pbind (map_p (fun i => opt_p (stringify i)) items) (fun l => POk [FAtom (mk l)])
+  | _ => POk []
+  end.
+Definition pc_cmp (p : path) (c : ynode) (k : string) (o : cop) : presult (list form) :=
+  match yget k c with
+  | Some v => match y_string v with
+              | Some s => pbind (parse_property_path s) (fun q => POk [FAtom (ACmp o p q)])
+              | None => POk []
+              end
+  | None => POk []
+  end.
+Definition pc_qualified (p : path) (c : ynode) (k : string) (mk : nat -> quant) : presult (list form) :=
+  match yget k c with
+  | Some qn =>
+      match yget "count" qn with
+      | Some cn => match y_nat cn with
+                   | Some n => match yget "validation" qn with
+                               | Some (YMap _ as v) => pbind (rec v) (fun f => POk [FNested (mk n) p f])
+                               | _ => PError
+                               end
+                   | None => PError
+                   end
+      | None => PError
+      end
+  | None => POk []
+  end.
+Definition pc_num (p : path) (c : ynode) (k : string) (o : nop) : presult (list form) :=
+  match yget k c with
+  | Some v => match y_nat v with Some n => POk [FAtom (ANum o p (Z.of_nat n))] | None => PUnsupported end   (* floats, negatives: not modelled *)
+  | None => POk []
+  end.
+Definition pc_datatype (p : path) (c : ynode) : presult (list form) :=
+  match yget "datatype" c with
+  | Some v => match y_string v with
+              | Some s => match expand_compact ctx s with Some e => POk [FAtom (ADatatype p e)] | None => PError end
               | None => PError
               end
-          | None => POk []
-          end in
-        pbind (qualified "atLeast" QAtLeast) (fun q1 => pbind (qualified "atMost" QAtMost) (fun q2 =>
-        let num (k : string) (o : nop) : presult (list form) :=
-          match yget k c with
-          | Some v => match y_nat v with Some n => POk [FAtom (ANum o p (Z.of_nat n))] | None => PUnsupported end   (* floats, negatives: not modelled *)
-          | None => POk []
-          end in
-        pbind (num "minInclusive" OGe) (fun n1 => pbind (num "minExclusive" OGt) (fun n2 =>
-        pbind (num "maxInclusive" OLe) (fun n3 => pbind (num "maxExclusive" OLt) (fun n4 =>
-        pbind (match yget "datatype" c with
-               | Some v => match y_string v with
-                           | Some s => match expand_compact ctx s with Some e => POk [FAtom (ADatatype p e)] | None => PError end
-                           | None => PError
-                           end
-               | None => POk [] end) (fun dt =>
-        pbind (match yget "nested" c with
-               | Some (YMap _ as v) => pbind (parse_expr fuel v) (fun f => POk [FNested QAll p f])
-               | _ => POk [] end) (fun nested =>
-        POk (counts ++ pattern ++ fin ++ fall ++ fsome ++ c1 ++ c2 ++ c3 ++ c4 ++ q1 ++ q2 ++ n1 ++ n2 ++ n3 ++ n4 ++ dt ++ nested)%list
-        ))))))))))))))))
-      | _ => PError               (* PropertyConstraint must be a map *)
-      end) in
-    match yget "propertyConstraints" y with
-    | Some (YMap entries) => pbind (map_p parse_pc entries) (fun ls => POk (FAnd (List.concat ls)))
-    | Some _ => POk (FAnd [])     (* GetMapKeys of a non-map yields no key *)
+  | None => POk []
+  end.
+Definition pc_nested (p : path) (c : ynode) : presult (list form) :=
+  match yget "nested" c with
+  | Some (YMap _ as v) => pbind (rec v) (fun f => POk [FNested QAll p f])
+  | _ => POk []
+  end.
+
+Definition parse_pc (entry : string * ynode) : presult (list form) :=
+  let (key, c) := entry in
+  pbind (parse_property_path key) (fun p =>
+  match c with
+  | YMap _ =>
+    if pc_unsupported c then PUnsupported else
+    pbind (pc_pattern p c) (fun pattern =>
+    pbind (pc_scalar_set c "in" (AIn p)) (fun fin =>
+    pbind (pc_scalar_set c "containsAll" (AContainsAll p)) (fun fall =>
+    pbind (pc_scalar_set c "containsSome" (AContainsSome p)) (fun fsome =>
+    pbind (pc_cmp p c "lessThanProperty" PLt) (fun c1 => pbind (pc_cmp p c "lessThanOrEqualsToProperty" PLe) (fun c2 =>
+    pbind (pc_cmp p c "equalsToProperty" PEq) (fun c3 => pbind (pc_cmp p c "disjointWithProperty" PNe) (fun c4 =>
+    pbind (pc_qualified p c "atLeast" QAtLeast) (fun q1 => pbind (pc_qualified p c "atMost" QAtMost) (fun q2 =>
+    pbind (pc_num p c "minInclusive" OGe) (fun n1 => pbind (pc_num p c "minExclusive" OGt) (fun n2 =>
+    pbind (pc_num p c "maxInclusive" OLe) (fun n3 => pbind (pc_num p c "maxExclusive" OLt) (fun n4 =>
+    pbind (pc_datatype p c) (fun dt =>
+    pbind (pc_nested p c) (fun nested =>
+    POk (pc_counts p c ++ pattern ++ fin ++ fall ++ fsome ++ c1 ++ c2 ++ c3 ++ c4 ++ q1 ++ q2 ++ n1 ++ n2 ++ n3 ++ n4 ++ dt ++ nested)%list
+    ))))))))))))))))
+  | _ => PError               (* PropertyConstraint must be a map *)
+  end).
+
+Definition operands (items : list ynode) : presult (list form) :=
+  map_p (fun i => match i with YMap _ => rec i | _ => PError end) items.
+
+Definition expr_body (y : ynode) : presult form :=
+  match yget "propertyConstraints" y with
+  | Some (YMap entries) => pbind (map_p parse_pc entries) (fun ls => POk (FAnd (List.concat ls)))
+  | Some _ => POk (FAnd [])     (* GetMapKeys of a non-map yields no key *)
+  | None =>
+    if present "rego" y || present "regoModule" y then PUnsupported else
+    match yget "and" y with
+    | Some (YSeq items) => pbind (operands items) (fun l => POk (FAnd l))
+    | Some _ => PError
     | None =>
-      if present "rego" y || present "regoModule" y then PUnsupported else
-      match yget "and" y with
-      | Some (YSeq items) => pbind (map_p (fun i => match i with YMap _ => parse_expr fuel i | _ => PError end) items) (fun l => POk (FAnd l))
+      match yget "or" y with
+      | Some (YSeq items) => pbind (operands items) (fun l => POk (FOr l))
       | Some _ => PError
       | None =>
-        match yget "or" y with
-        | Some (YSeq items) => pbind (map_p (fun i => match i with YMap _ => parse_expr fuel i | _ => PError end) items) (fun l => POk (FOr l))
+        match yget "not" y with
+        | Some (YMap _ as n) => pbind (rec n) (fun f => POk (FNot f))
         | Some _ => PError
         | None =>
-          match yget "not" y with
-          | Some (YMap _ as n) => pbind (parse_expr fuel n) (fun f => POk (FNot f))
-          | Some _ => PError
-          | None =>
-            match yget "if" y with
-            | Some i =>
-                match yget "then" y with
-                | Some t => pbind (parse_expr fuel i) (fun fi => pbind (parse_expr fuel t) (fun ft =>
-                            match yget "else" y with
-                            | Some e => pbind (parse_expr fuel e) (fun fe => POk (FIf fi ft (Some fe)))
-                            | None => POk (FIf fi ft None)
-                            end))
-                | None => PError
-                end
-            | None => PError
-            end
+          match yget "if" y with
+          | Some i =>
+              match yget "then" y with
+              | Some t => pbind (rec i) (fun fi => pbind (rec t) (fun ft =>
+                          match yget "else" y with
+                          | Some e => pbind (rec e) (fun fe => POk (FIf fi ft (Some fe)))
+                          | None => POk (FIf fi ft None)
+                          end))
+              | None => PError
+              end
+          | None => PError
           end
         end
       end
     end
+  end.
+End Body.
+
+Fixpoint parse_expr (fuel : nat) (y : ynode) {struct fuel} : presult form :=
+  match fuel with
+  | O => PUnsupported
+  | S fuel => expr_body (parse_expr fuel) y
   end.
 End WithContext.
 
@@ -262,9 +287,9 @@ Definition parse_profile (defaults : list (string * string)) (doc : ynode) : pre
   | _ => PError
   end.
 
-(* the verdict of a profile text on a graph, from the YAML tree: per level, the (validation, focus) pairs *)
-Definition verdict (defaults : list (string * string)) (doc : ynode) (g : graph) : presult (list (level * string * string)) :=
+(* the verdict of a profile text on a graph, from the YAML tree: per level, the (validation, focus, message template) triples *)
+Definition verdict (defaults : list (string * string)) (doc : ynode) (g : graph) : presult (list (level * string * string * string)) :=
   pbind (parse_profile defaults doc) (fun p =>
     if forallb (fun d => wf_form (v_form d)) (p_defs p) then
-      POk (flat_map (fun l : level => map (fun r : Report.result => (l, r_name r, r_focus r)) (level_results g p l)) (Violation :: Warning :: Info :: nil))
+      POk (flat_map (fun l : level => map (fun r : Report.result => (l, r_name r, r_focus r, r_msg r)) (level_results g p l)) (Violation :: Warning :: Info :: nil))
     else PUnsupported).
